@@ -104,7 +104,7 @@ func (g *genRns) Block(w *World, b int) Block {
 		if own >= 0 && rng.Chance(3, 5) {
 			actor = own // owner acts most of the time, strangers the rest
 		}
-		switch rng.Weighted([]int{16, 4, 6, 12, 6, 8, 8, 10, 5, 10, 6, 4, 2, 3, 4}) {
+		switch rng.Weighted([]int{16, 4, 6, 12, 6, 8, 8, 10, 5, 10, 6, 4, 2, 3, 4, 3}) {
 		case 0:
 			add(mkOp("rns_register", t).withS("name", n).withN("years", rng.Pick64(1, 1, 2, 5, 0, -1)).withN("primary", rng.Range(0, 1)))
 		case 1:
@@ -137,6 +137,18 @@ func (g *genRns) Block(w *World, b int) Block {
 			add(mkOp("rns_init", t))
 		case 13:
 			add(mkOp("rns_makeprimary", t).withS("name", n))
+		case 15: // a bid, then a re-bid inside a transaction that is rolled back, then cancel or accept
+			amt := rng.Pick64(1000, 5_000_000)
+			add(mkOp("rns_bid", t).withS("name", n).withN("amt", amt))
+			st := txStep(mkOp("rns_bid", t).withS("name", n).withN("amt", amt*rng.Pick64(2, 10)),
+				mkOp("bank_send", t).withN("to", 0).withN("amt", 9_000_000_000_000_000_000))
+			st.Fault = "multi_msg"
+			steps = append(steps, st)
+			if rng.Chance(1, 2) {
+				add(mkOp("rns_cancel", t).withS("name", n))
+			} else if own >= 0 {
+				add(mkOp("rns_accept", own).withS("name", n).withN("from", int64(t)))
+			}
 		case 14: // the classic stale-listing history compressed into one block: list, transfer, buy
 			if own >= 0 {
 				to := g.traders[rng.Intn(len(g.traders))]
